@@ -15,7 +15,7 @@ pub const SPEC: PropSpec = PropSpec {
     rule: "Cases = (input bytes, reader configuration). Exhaustive part: every byte string up to length N over the 13 markup bytes under the neutral configuration and, up to a smaller N, under all 128 configurations; every sequence of up to k markup atoms; the terminator pool. Random part: grammar-generated documents, their mutants, truncations at every offset, the repository corpus (whole and truncated), each under neutral + 2 random configurations. Each case runs the real slice reader in lock-step with the reference tokenizer R_tok and compares every event (kind, raw bytes, name/target) and every error (variant, payload, error position). Non-trivial = the input contains '<'.",
     assumptions: &[
         "R_tok (harness/src/refmodel/tok.rs) is the lexical grammar quick-xml documents; it is pinned against tests/reader-errors.rs corner cases",
-        "empty Text events are ignored on both sides (whether one may appear is C16's business)",
+        "an empty Text event is accepted only at the sites of known finding F6 (trim_text_end on, trim_text_start off, whitespace-only text followed by markup; judged and listed by C16); any other empty Text event is reported as invented",
         "the byte position reported inside a DoubleHyphenInComment error is not compared (no property states it)",
         "strings inside name-mismatch errors are compared only while the decoder is known to be UTF-8",
     ],
@@ -147,7 +147,8 @@ pub fn lockstep(input: &[u8], cfg: &CfgHist, loc: &mut Local) -> Result<(), Stri
         let res = r.read_event();
         let real = result_obs(&res);
         call += 1;
-        if real.is_empty_text() {
+        if real.is_empty_text() && m.accept_f6_empty_text(c) {
+            // the one known source of empty Text events (finding F6, judged and listed by C16)
             loc.empty_text_ignored += 1;
             continue;
         }
